@@ -3,10 +3,16 @@
 // Contracts for the deductive checks in /verif (structured comments only; this file declares nothing).
 package serviceprovider
 
+//@ ## invariant of a ServiceProvider (assumed for providers handed out by storage, established here):
+//@ ## metadata with an SPSSODescriptor, and a verification key that is either absent or a non-nil key
 //@ func serviceprovider.NewServiceProvider
 //@   inline
+//@   names sp, err
 //@   property C09
 //@   requires config != nil
+//@   ensures C05,C09.service-provider-invariant: err == nil ==> sp != nil && sp.Metadata != nil && sp.Metadata.SPSSODescriptor != nil &&
+//@             (tagof(sp.signerPublicKey) != 0 ==> valof(sp.signerPublicKey) != nil) && sp.ID == id && sp.loginURL == loginURL
+//@   ensures C09.nothing-on-error: err != nil ==> sp == nil
 //@
 //@ ## C05: the two signature validators are contract boundaries; their ghost code records what each call was asked to verify
 //@ pure signedOctets(request, relayState, sigAlg) = urlEsc(relayState) != "" ?
@@ -14,7 +20,7 @@ package serviceprovider
 //@             "SAMLRequest=" + urlEsc(request) + "&SigAlg=" + urlEsc(sigAlg)
 //@ func (*serviceprovider.ServiceProvider).ValidateRedirectSignature
 //@   property C05
-//@   requires sp != nil
+//@   requires sp != nil && (tagof(sp.signerPublicKey) != 0 ==> valof(sp.signerPublicKey) != nil)
 //@   assigns vrdCalls, vrdOK, vrdAlg, vrdElem, vrdSig, vrdKeyTag, vrdKeyVal
 //@   ensures C05.accepts-only-one-verification-of-exactly-the-signed-octets: result == nil ==> tagof(sp.signerPublicKey) != 0 && b64ok(expectedSig) &&
 //@             vrdCalls == old(vrdCalls) + 1 && vrdOK && vrdAlg == sigAlg && vrdSig == b64dec(expectedSig) &&
